@@ -217,12 +217,23 @@ def check(ctx):
     fcls = prog.cls('adv_shell.common', 'Facilities')
     mvp = fcls.methods.get('member_variables')
     order = []
+
+    def with_helpers(m):
+        """the method and the properties / methods of the same class it reads through `self.<name>` (one level)"""
+        out = [m]
+        for n in iter_own_nodes(m.node):
+            if isinstance(n, ast.Attribute) and isinstance(n.value, ast.Name) and n.value.id == 'self':
+                h = fcls.methods.get(n.attr)
+                if h is not None and h is not m and h not in out:
+                    out.append(h)
+        return out
     if mvp is not None:
-        # the literal sequence of the facility members, whether it feeds a comprehension or an explicit loop
-        for n in iter_own_nodes(mvp.node):
-            if isinstance(n, (ast.List, ast.Tuple)) and n.elts and all(
-                    isinstance(e, ast.Attribute) and isinstance(e.value, ast.Name) and e.value.id == 'self' for e in n.elts):
-                order = [e.attr for e in n.elts]
+        # the literal sequence of the facility members, whether it feeds a comprehension, a generator or an explicit loop
+        for m_ in with_helpers(mvp):
+            for n in iter_own_nodes(m_.node):
+                if isinstance(n, (ast.List, ast.Tuple)) and len(n.elts) >= 2 and all(
+                        isinstance(e, ast.Attribute) and isinstance(e.value, ast.Name) and e.value.id == 'self' for e in n.elts):
+                    order = [e.attr for e in n.elts]
     ok = order and set(order) == {'runtime', 'dispatcher', 'locator'} and order.index('locator') > order.index('runtime') \
         and order.index('locator') > order.index('dispatcher')
     run.add('C09.order', fcls.module.name, 'Facilities.member_variables', f'declaration order {order}', bool(ok),
@@ -259,10 +270,10 @@ def check(ctx):
     # ---- C09.accessor ------------------------------------------------------------------------------------------------------------------
     for prop in ('accessors_decl', 'accessors_def'):
         m = fcls.methods.get(prop)
-        ok = m is not None and any(isinstance(n, ast.ListComp) and n.generators[0].ifs and
+        ok = m is not None and any(isinstance(n, (ast.ListComp, ast.GeneratorExp)) and n.generators[0].ifs and
                                    'is not None' in ast.unparse(n.generators[0].ifs[0]) and
                                    'locator_accessor_fn' in ast.unparse(n.generators[0].iter)
-                                   for n in iter_own_nodes(m.node))
+                                   for m_ in with_helpers(m) for n in iter_own_nodes(m_.node))
         run.add('C09.accessor', fcls.module.name, f'Facilities.{prop}', prop, ok,
                 'the Locator() accessor is rendered only when it exists (CREATE)' if ok else
                 'the accessor list does not skip an absent Locator() accessor')
